@@ -64,12 +64,11 @@ def huffEncLen (s : Bytes) : Nat := ((huffBits s).length + 7) / 8
 
 /-! ### decoder: the 4-bit automaton -/
 
-def huffDecTab : Array (Array (Nat × Nat × Nat)) :=
-  (Extracted.hpackHuffDec.map List.toArray).toArray
-
-/-- `decode_tables[state][nibble]`; anything out of range counts as FAIL -/
+/-- `decode_tables[state][nibble]`; anything out of range counts as FAIL.
+    (the extracted table comes in 16 chunks of 16 states) -/
 def huffEntry (state nib : Nat) : Nat × Nat × Nat :=
-  (huffDecTab.getD state #[]).getD nib (0, Extracted.hpackHuffFail, 0)
+  (((Extracted.hpackHuffDec.getD (state / 16) []).getD (state % 16) []).getD nib
+    (0, Extracted.hpackHuffFail, 0))
 
 /-- hdec_huff_dec4bits(): `none` = FAIL, else (new state, accepted, emitted symbol) -/
 def huffStep (state nib : Nat) : Option (Nat × Bool × Option UInt8) :=
